@@ -446,7 +446,7 @@ def grid(tier):
             for k in (0, 4):
                 for after in ("RETR missing", "STOR d/x/y", "NOOP", "REST 2", "PWD", "APPE missing/z"):
                     c = {"pipelined": True, "op": op, "k": k, "after": after, "backend": backend}
-                    items.append((c, 1 if tier == "quick" else 2, ["order"], 3000))
+                    items.append((c, 1 if tier == "quick" else 2, ["order"], 3000 if tier == "quick" else 60000))
     return items
 
 
